@@ -236,12 +236,12 @@ func checkC10(c *Ctx, r *Report) {
 	// ---- R2 ---------------------------------------------------------------
 	r2 := r.Rule("C10-R2", "E5", 6, "every transport.Transport implementer is classified: upgrader-based (reaches Upgrade / UpgradeGatedMaListener) or self-gated")
 	classes := map[string]string{
-		"p2p/transport/tcp.TcpTransport":            "upgrader",
+		"p2p/transport/tcp.TcpTransport":             "upgrader",
 		"p2p/transport/websocket.WebsocketTransport": "upgrader",
-		quicP + ".transport":                        "self-gated",
-		wtP + ".transport":                          "self-gated",
-		wrP + ".WebRTCTransport":                    "self-gated",
-		"p2p/protocol/circuitv2/client.Client":      "upgrader",
+		quicP + ".transport":                         "self-gated",
+		wtP + ".transport":                           "self-gated",
+		wrP + ".WebRTCTransport":                     "self-gated",
+		"p2p/protocol/circuitv2/client.Client":       "upgrader",
 	}
 	if ti := c.Named("core/transport", "Transport"); ti == nil {
 		r2.Err("core/transport.Transport", "interface does not resolve")
@@ -512,7 +512,7 @@ func checkC10(c *Ctx, r *Report) {
 				return false
 			}
 			lk, ok := e.Tuple.(*ssa.Lookup)
-			return ok && isLoadOfField(gT + "." + field)(strip2(lk.X))
+			return ok && isLoadOfField(gT+"."+field)(strip2(lk.X))
 		}
 	}
 	for _, fnN := range []string{"InterceptAddrDial", "InterceptAccept"} {
@@ -547,7 +547,7 @@ func checkC10(c *Ctx, r *Report) {
 			// the loop over blockedSubnets is on every path to the final allow (past the ToIP success)
 			ranges := findInstrs(f, func(in ssa.Instruction) bool {
 				rg, ok := in.(*ssa.Range)
-				return ok && isLoadOfField(gT + ".blockedSubnets")(strip2(rg.X))
+				return ok && isLoadOfField(gT+".blockedSubnets")(strip2(rg.X))
 			})
 			q2 := &Cut{Fn: f, Target: inSet(allowRets), Sep: inSet(ranges), EdgeCut: toIPErr}
 			r7.mustPass(f, "(*"+gT+")."+fnN+": every allow (with an IP) passed the subnet scan", q2, 1)
